@@ -133,7 +133,7 @@ theorem primsOK_noDebit (P : Params) (h : Nat) (A : Addr → Prop) : PrimsOK P h
   setConvertedAmount _ _ _ := guarded_keep (·.addrs) (noDebit_keep A) (fun _ => rfl)
   setPegConverted _ _ _ _ := guarded_keep (·.addrs) (noDebit_keep A) (fun _ => rfl)
   insertRelation _ _ _ _ _ := guarded_keep (·.addrs) (noDebit_keep A) (fun s => by split <;> rfl)
-  insertHolding _ _ := guarded_keep (·.addrs) (noDebit_keep A) (fun _ => rfl)
+  insertHolding _ _ _ := guarded_keep (·.addrs) (noDebit_keep A) (fun _ => rfl)
   insertBank _ := guarded_keep (·.addrs) (noDebit_keep A) (fun _ => rfl)
   updateBank _ _ _ := guarded_keep (·.addrs) (noDebit_keep A) (fun _ => rfl)
   insertGrade _ _ _ _ _ := guarded_keep (·.addrs) (noDebit_keep A) (fun _ => rfl)
@@ -155,7 +155,7 @@ def Debitable (P : Params) (c : DB) (b : Block) (a : Addr) : Prop :=
 theorem authOK_debitable (P : Params) (c : DB) (b : Block) :
     AuthOK P (noDebitOutside (Debitable P c b)) (Debitable P c b) c b where
   log _ := guarded_keep (·.addrs) (noDebit_keep _) (fun _ => rfl)
-  comps := histComps_of_prims (primsOK_noDebit P b.height (Debitable P c b)) (fun _ => trivial)
+  comps := histComps_of_prims (primsOK_noDebit P b.height (Debitable P c b)) (fun _ => trivial) trivial
   txs es hes e he hv t ht := Or.inl ⟨es, hes, e, he, hv, t, ht, rfl⟩
   held row hrow hv t ht := Or.inr (Or.inl ⟨row, hrow, hv, t, ht, rfl⟩)
   mint hb := Or.inr (Or.inr (Or.inl ⟨hb, rfl⟩))
